@@ -40,11 +40,22 @@ Section Run.
   Lemma inv_dm_makedirs p eo : pok p -> inv I (dm_makedirs c p eo).
   Proof. intros [A B] s s' [] HI H. eapply I1_dm_makedirs; eauto. Qed.
 
-  Lemma inv_do_copyfile src to_file mk :
-    pok to_file -> (forall od, mk = Some od -> pok od) -> inv I (do_copyfile c src to_file mk).
+  Lemma src_create_spec src p f f' : src_create src p f = Ok f' ->
+    exists cc, resolve f p = Ok cc /\ cc <> [] /\ chg_at f f' cc /\ leaf (lookup f' cc) /\ (lookup f cc = None \/ leaf (lookup f cc)).
+  Proof.
+    unfold src_create. destruct src as [m t d| | |tg tm]; try discriminate; intros H.
+    - pose proof H as H0. apply m_write_spec in H as [cc [R [L [C Pre]]]]. exists cc.
+      repeat split; auto; [eapply m_write_nonroot; eauto | rewrite L; exact Logic.I|].
+      destruct Pre as [N|[m0 [t0 [d0 Lf]]]]; [left; exact N | right; rewrite Lf; exact Logic.I].
+    - pose proof H as H0. apply m_symlink_spec in H as [cc [R [N [L C]]]]. exists cc.
+      repeat split; auto; [eapply m_symlink_nonroot; eauto | rewrite L; exact Logic.I].
+  Qed.
+
+  Lemma inv_copy_to src to_file mk :
+    pok to_file -> (forall od, mk = Some od -> pok od) -> inv I (copy_to c src to_file mk).
   Proof.
     intros [Hd Ha] Hmk s0 s' a HI0 H. pose proof (nd_nodd _ Hd) as Hn.
-    unfold do_copyfile in H. destruct src as [smode smtime dg| |]; try discriminate.
+    unfold copy_to in H.
     unfold bind at 1 in H. unfold query at 1 in H.
     destruct (q_islink (s_fs s0) to_file) as [il|e] eqn:Qi; [|discriminate].
     (* a link in the way is removed: the invariant holds with a hole at the destination *)
@@ -69,16 +80,15 @@ Section Run.
         apply q_exists_true in Qe; [|exact Hn]. destruct Qe as [X|X]; contradiction. }
       destruct (q_isfile (s_fs s) to_file) as [[|]|e] eqn:Qf; simpl in H; try discriminate.
       destruct (lnode (s_fs s) to_file) as [n|e] eqn:Ln; [|discriminate].
-      destruct (c_only_changed c && match n with Some (NFile _ t _) => smtime <=? t | _ => false end).
+      destruct (c_only_changed c && _).
       + unfold log, ret in H. inversion H; subst. apply I1_log_comment; [reflexivity | intros p0; discriminate | exact HI].
       + unfold mutate in H. rewrite Dry in H.
         destruct (m_unlink (s_fs s) to_file) as [f1|e] eqn:Un; [|discriminate]. unfold ret in H. simpl in H.
-        destruct (m_write f1 to_file smode smtime dg) as [f2|e] eqn:Wr; [|discriminate].
+        destruct (src_create src to_file f1) as [f2|e] eqn:Wr; [|discriminate].
         unfold log in H. simpl in H. inversion H; subst.
         apply m_unlink_spec in Un as [c1 [R1 [Ne [Nd [_ C1]]]]]. apply resolve_nodd in R1; [subst c1 | exact Hn].
-        pose proof Wr as Wr0. apply m_write_spec in Wr as [c2 [R2 [L2 [C2 _]]]].
-        pose proof (m_write_nonroot _ _ _ _ _ _ _ Wr0 R2) as Nc. apply resolve_nodd in R2; [subst c2 | exact Hn].
-        apply (I1_leaf_logged f0 None); [exact Hd | exact Ha | exact Nc | left; reflexivity | exact HI | eapply chg_at_trans; eauto | rewrite L2; exact Logic.I|].
+        apply src_create_spec in Wr as [c2 [R2 [Nc [C2 [L2 _]]]]]. apply resolve_nodd in R2; [subst c2 | exact Hn].
+        apply (I1_leaf_logged f0 None); [exact Hd | exact Ha | exact Nc | left; reflexivity | exact HI | eapply chg_at_trans; eauto | exact L2|].
         right. destruct (lookup (s_fs s) (cleanp to_file)) as [[| |]|]; simpl; auto. eapply Nd; reflexivity.
     - (* it does not exist *)
       assert (exists s1, I1 f0 h s1 /\ (match mk with Some outdir => dm_makedirs c outdir true | None => ret tt end) s = (s1, Ok tt)) as [s1 [HI1 E1]].
@@ -87,14 +97,19 @@ Section Run.
           exists s1. split; [|reflexivity]. destruct (Hmk od eq_refl) as [A B]. eapply I1_dm_makedirs; eauto.
         - exists s. split; [exact HI | reflexivity]. }
       rewrite E1 in H. unfold ret, mutate in H. rewrite Dry in H. simpl in H.
-      destruct (m_write (s_fs s1) to_file smode smtime dg) as [f2|e] eqn:Wr; [|discriminate].
+      destruct (src_create src to_file (s_fs s1)) as [f2|e] eqn:Wr; [|discriminate].
       unfold log in H. simpl in H. inversion H; subst.
-      pose proof Wr as Wr0. apply m_write_spec in Wr as [c2 [R2 [L2 [C2 Pre]]]].
-      pose proof (m_write_nonroot _ _ _ _ _ _ _ Wr0 R2) as Nc.
+      apply src_create_spec in Wr as [c2 [R2 [Nc [C2 [L2 Pre]]]]].
       pose proof (resolve_parent _ _ _ Hn R2 Nc) as Pd.
       apply resolve_nodd in R2; [subst c2 | exact Hn].
-      apply (I1_leaf_logged f0 h); [exact Hd | exact Ha | exact Nc | exact Hh' | exact HI1 | exact C2 | rewrite L2; exact Logic.I|].
-      destruct Pre as [N|[m0 [t0 [d0 Lf]]]]; [left; auto | right; rewrite Lf; exact Logic.I].
+      apply (I1_leaf_logged f0 h); [exact Hd | exact Ha | exact Nc | exact Hh' | exact HI1 | exact C2 | exact L2|].
+      destruct Pre as [N|Lf]; [left; auto | right; exact Lf].
+  Qed.
+
+  Lemma inv_do_copyfile src to_file mk :
+    pok to_file -> (forall od, mk = Some od -> pok od) -> inv I (do_copyfile c src to_file mk).
+  Proof.
+    intros Hp Hmk. unfold do_copyfile. destruct src; try apply okp_fail; apply inv_copy_to; assumption.
   Qed.
 
   Lemma inv_do_symlink target link : pok link -> inv I (do_symlink c target link).
@@ -145,7 +160,7 @@ Section Run.
     eapply okp_bind.
     { instantiate (1 := fun _ => I). destruct pd; [apply okp_ret; auto|].
       eapply okp_bind; [apply inv_dm_makedirs, pok_dirname; exact Hp|]. intros u. apply inv_chmod. }
-    intros u. destruct (snd e) as [[m t] dg].
+    intros u.
     eapply okp_bind; [apply inv_do_copyfile; [exact Hp | discriminate]|]. intros b. apply inv_set_mode.
   Qed.
 
@@ -185,6 +200,7 @@ Section Run.
       + eapply okp_bind; [apply Hc|]. intros [|]; [apply inv_set_mode | apply okp_ret; auto].
       + destruct (fi_optional i); [apply okp_ret; auto | apply okp_fail].
       + apply okp_fail.
+      + eapply okp_bind; [apply Hc|]. intros [|]; [apply inv_set_mode | apply okp_ret; auto].
     - eapply okp_bind; [apply Hc|]. intros b. apply inv_set_mode.
     - eapply okp_bind; [apply Hc|]. intros b. apply inv_set_mode.
     - eapply okp_bind; [apply Hc|]. intros b. apply inv_set_mode.
